@@ -74,13 +74,17 @@ def r1_single_selection_state(ctx, rep, R='C03.R1'):
              'Shuffle.global_setup (same key, value rebuilt from the same suite) and '
              'Filter.global_setup (removal of whole layers only)')
     allowed = {'runner.Runner.__init__': {'rebind'}, 'runner.Runner.register_tests': {'update'},
-               'shuffle.Shuffle.global_setup': {'setitem'}, 'filter.Filter.global_setup': {'pop'}}
+               'shuffle.Shuffle.global_setup': {'setitem'}, 'filter.Filter.global_setup': {'remove-one'}}
+    # what the write does, not how it is spelled: layers.pop(name) and del layers[name] both remove
+    # one whole layer
+    CLASS = {'pop': 'remove-one', 'delitem': 'remove-one'}
     w = _state_writers(ctx)
     n = 0
     for q, items in sorted(w.items()):
         fi = ctx.model.func(q)
         for kind, node in items:
             n += 1
+            kind = CLASS.get(kind, kind)
             rep.check(q in allowed and kind in allowed[q], R, '%s: %s' % (q, kind),
                       'the selection state is modified (%s) in %s: %s' % (kind, q, norm(node)[:80]),
                       key='%s:%s' % (q, kind), func=q, where=ctx.where(fi, node))
